@@ -470,3 +470,17 @@ func init() {
 		return ret
 	}
 }
+
+func init() {
+	// github.com/alitto/pond: a worker pool. Modelled as a synchronous single worker
+	// (Submit runs the task; exact for a pool of one worker, tasks in FIFO order).
+	intrinsics["github.com/alitto/pond.New"] = func(fr *frame, a []value) value {
+		t := fr.i.namedType("github.com/alitto/pond", "WorkerPool")
+		return newCell(t)
+	}
+	intrinsics["(*github.com/alitto/pond.WorkerPool).Submit"] = func(fr *frame, a []value) value {
+		call(fr.i, fr, 0, a[1], nil)
+		return nil
+	}
+	intrinsics["(*github.com/alitto/pond.WorkerPool).StopAndWait"] = func(fr *frame, a []value) value { return nil }
+}
